@@ -378,6 +378,9 @@ func genFile(r *rand.Rand, idx int) File {
 	default:
 		f.Base = Base{Form: "value", Path: fmt.Sprintf("/api/r%d", idx)}
 	}
+	if f.Base.Form != "none" && r.Intn(5) == 0 { // a base path written with a trailing slash (members then come without a leading one)
+		f.Base.Path += "/"
+	}
 	f.Mapfirst = f.Base.Form != "none" && r.Intn(4) == 0
 	f.Impl = r.Intn(4) == 0
 	n := r.Intn(6)
@@ -398,7 +401,7 @@ func genFile(r *rand.Rand, idx int) File {
 				m.Form = []string{"short", "value", "none"}[r.Intn(3)]
 			}
 			if m.Form != "none" {
-				m.Path = []string{"/x", "/{id}", "/items/{id}/sub", "/"}[r.Intn(4)]
+				m.Path = []string{"/x", "/{id}", "/items/{id}/sub", "/", "orders", "orders/{id}"}[r.Intn(6)]
 			}
 		}
 		np := r.Intn(4)
@@ -433,6 +436,13 @@ func gen(seed int64, n int, tier string) []interface{} {
 		for i := 0; i < nf; i++ {
 			c.Files = append(c.Files, genFile(r, i))
 			all = append(all, i+1)
+		}
+		// two controllers of the same class (and file) name in different packages
+		if nf > 1 && r.Intn(4) == 0 {
+			c.Files[1].Cls = c.Files[0].Cls
+			if c.Files[1].Pkg == c.Files[0].Pkg {
+				c.Files[1].Pkg = c.Files[0].Pkg + ".admin"
+			}
 		}
 		nr := 1 + r.Intn(3)
 		for j := 0; j < nr; j++ {
